@@ -519,6 +519,45 @@ def run_scenario(screen, D, seed, start_empty):
         np.random.normal, np.random.gamma, sparse_combo.sample_mvn_from_precision = orig
 
 
+def run_fault_scenario(screen, D, seed, fail_calls):
+    """A numerically failing embedding draw (the sampler's own fall-back path: float32 Cholesky of a nearly singular conditional precision raises
+    LinAlgError; here the failure is injected at chosen calls of the multivariate-normal routine so that every Gaussian embedding block meets it).
+    Whatever the block does then - keep the old value, retry - afterwards the running fitted values must equal those implied by the current
+    parameters and the exported sample must reproduce them.  No oracle of the draws here: only the consistency clauses."""
+    space = ExperimentSpace.from_screen(screen)
+    model = sparse_combo.SparseDrugCombo(experiment_space=space, n_embedding_dimensions=D)
+    tr = Training()
+    h = Harness(model, tr, seed, f"[D={D} failing draw at calls {sorted(fail_calls)}]")
+    real = sparse_combo.sample_mvn_from_precision
+    state = {"n": 0}
+
+    def flaky(*a, **kw):
+        state["n"] += 1
+        if state["n"] in fail_calls:
+            raise np.linalg.LinAlgError("Matrix is not positive definite (injected)")
+        return real(*a, **kw)
+    st0 = np.random.get_state()
+    np.random.seed(seed)
+    sparse_combo.sample_mvn_from_precision = flaky
+    try:
+        for plate in ("p1", "p2"):
+            batch = screen.subset(screen.plate_names == plate)
+            model.add_observations(batch)
+            tr.add(batch)
+            for k in range(2):
+                state["n"] = 0
+                with warnings.catch_warnings():
+                    warnings.simplefilter("ignore")
+                    model.step()
+                h.label = f"[D={D} failing draw at calls {sorted(fail_calls)}] after {plate} step {k + 1}"
+                h.check_mu("after a step in which an embedding draw failed numerically")
+                h.check_export()
+    finally:
+        sparse_combo.sample_mvn_from_precision = real
+        np.random.set_state(st0)
+    return state["n"]
+
+
 def standalone_mvn_checks():
     rs = np.random.RandomState(7)
     mats = [np.array([[1.0, 0.4], [0.4, 1.0]]), np.array([[3.0]])]
